@@ -1436,4 +1436,11 @@ Tokens""")]),
          """                "doc": extract_default(
                     return_doc,""", """                "doc": extract_default(
                     next(line.partition(",")[2].lstrip() for line in get_value(function_def.body[0].value).split("\\n") if line.lstrip().startswith(":return")),""")]),
+    # ---- TABLE-style: google return type line
+    dict(id="googleret-single-line-taken-for-prose", kind=B, props=["C01"], expect="TABLE-style", edits=[("docstring_parsers.py",
+         """                                    if len(scanned[return_tokens[0]]) == 1
+                                    and isinstance(scanned[return_tokens[0]][0], str)
+                                    and scanned[return_tokens[0]][0].rstrip().endswith(":")""", """                                    if len(scanned[return_tokens[0]]) == 1
+                                    and isinstance(scanned[return_tokens[0]][0], str)
+                                    and scanned[return_tokens[0]][0].rstrip().startswith("Tuple")""")]),
 ]
